@@ -97,7 +97,34 @@ RESOURCE_MSGS = ('resource limit', 'rlimit', 'timed out', 'timeout', 'solver can
 
 
 def run_verus(unit, repo, outdir, vacuity=False, rlimit=None):
-    info = extract.build(unit, repo, os.path.join(VERIF, 'units'), outdir, vacuity=vacuity)
+    """Verify one unit.  If the generated file does not compile because of constructs inside extracted function bodies
+    (a change to the code started using something the verifier or the unit's model does not support), those functions
+    are isolated - contract kept as a stub, body dropped, reported NO-VERDICT - and the rest of the unit is verified."""
+    stub_out = set()
+    for _round in range(4):
+        res = run_verus_once(unit, repo, outdir, vacuity, rlimit, stub_out)
+        if not res['compile_error']:
+            break
+        culprits = set()
+        outside = False
+        for e in res['errors']:
+            if e.get('class') == 'verification':
+                continue
+            hit = [m for m in res['info']['map'] if e['line'] is not None and m['gen_start'] <= e['line'] <= m['gen_end'] and not m.get('stubbed')]
+            if hit:
+                culprits.add(hit[0]['selector'])
+            elif e.get('level', 'error') == 'error':
+                outside = True
+        if outside or not culprits or culprits <= stub_out:
+            break
+        res['first_errors'] = res['errors']
+        stub_out |= culprits
+    res['isolated'] = sorted(stub_out)
+    return res
+
+
+def run_verus_once(unit, repo, outdir, vacuity=False, rlimit=None, stub_out=None):
+    info = extract.build(unit, repo, os.path.join(VERIF, 'units'), outdir, vacuity=vacuity, stub_out=stub_out)
     gen = info['generated']
     cmd = ['verus', gen, '--output-json', '--time-expanded', '--multiple-errors', '20']
     if rlimit:
@@ -269,8 +296,16 @@ def main():
             continue
         mine = lambda props, acc=acc: props is None or props == [] or bool(acc & set(props))  # noqa: E731
         dep = u not in own_units
+        # functions whose bodies could not be brought under the verifier in this tree (contract kept as a stub)
+        reasons = dict(info.get('stubbed', []))
+        for m in info['map']:
+            if m.get('stubbed') and mine(m['props']):
+                noverdict.append('unit %s: %s (%s:%d) is NOT VERIFIED in this tree: %s; its contract is assumed so that the rest of '
+                                 'the unit gets a verdict' % (u, m['selector'], m['file'], m['src_line'], reasons.get(m['selector'], '?')[:200]))
         # functions under contract for this property
         for m in info['map']:
+            if m.get('stubbed'):
+                continue
             if mine(m['props']):
                 contracted.append('%s (%s:%d)%s' % (m['selector'], m['file'], m['src_line'],
                                                     ' [dependency: contract assumed by this property\'s units]' if dep else ''))
